@@ -12,6 +12,7 @@ import (
 	"github.com/sirupsen/logrus"
 
 	"hop.computer/hop/common"
+	"hop.computer/hop/pkg/verifhook"
 	"hop.computer/hop/transport"
 )
 
@@ -146,6 +147,7 @@ func newMuxer(msgConn transport.MsgConn, timeout time.Duration, isServer bool, l
 // reapTube is called in a goroutine whenever a tube is created or accepted.
 func (m *Muxer) reapTube(t Tube) {
 	t.WaitForClose()
+	verifhook.Pause("tubes.Muxer.reapTube:closed")
 
 	// This prevents tubes IDs from being reused while the remote peer is waiting in lastAck.
 	if r, ok := t.(*Reliable); ok && t.GetID()%2 == m.idParity {
@@ -401,6 +403,7 @@ func (m *Muxer) sender() {
 	ok := true
 	var rawBytes []byte
 	for ok {
+		verifhook.Pause("tubes.Muxer.sender:loop")
 		select {
 		// Priority send queue will have fewer packets and will be chosen pseudo randomly
 		// https://go.dev/ref/spec#Select_statements
@@ -478,6 +481,7 @@ func (m *Muxer) receiver() {
 		if err != nil {
 			return
 		}
+		verifhook.Pause("tubes.Muxer.receiver:frame")
 		var tube Tube
 		tube, ok := m.getTube(frame.flags.REL, frame.tubeID)
 		if !ok {
@@ -534,6 +538,7 @@ func closeTubeHelper(t Tube, log *logrus.Entry, wg *sync.WaitGroup) {
 // owner to publish its result. Stop returns the sender error followed by the
 // receiver error.
 func (m *Muxer) Stop() (sendErr error, recvErr error) {
+	verifhook.Pause("tubes.Muxer.Stop:enter")
 	// This error indicates that the muxer got an ICMP Destination Unreachable packet.
 	// This happens when the other side of the connetion has been closed, so we
 	// can ignore it.
@@ -571,6 +576,7 @@ func (m *Muxer) Stop() (sendErr error, recvErr error) {
 
 	m.state.Store(muxerStopping)
 	m.m.Unlock()
+	verifhook.Pause("tubes.Muxer.Stop:stopping")
 
 	// If tubes do not correctly close after some time, assume they never will and force them to close.
 	time.AfterFunc(muxerTimeout, func() {
@@ -596,6 +602,7 @@ func (m *Muxer) Stop() (sendErr error, recvErr error) {
 
 	// Wait for all tubes to close
 	wg.Wait()
+	verifhook.Pause("tubes.Muxer.Stop:tubes-closed")
 	m.state.Store(muxerStopped)
 
 	close(m.prioritySendQueue)
@@ -612,6 +619,7 @@ func (m *Muxer) Stop() (sendErr error, recvErr error) {
 		m.underlying.Close()
 		m.sendErr = <-m.senderErr
 	}
+	verifhook.Pause("tubes.Muxer.Stop:before-underlying-close")
 	m.underlying.Close()
 
 	// Cache errors for future calls to Stop.
